@@ -13,15 +13,16 @@ PROPS = ["C05", "C09"]
 # per property and tier: list of (cfg, mode, sample); sample = number of transitions taken as targets
 # of the walks (None = every transition of the bounded graph is executed)
 CONFIGS = {
-    "C05": {"quick": [("SpeakerMC_bgp.cfg", "edges", 4000), ("SpeakerMC_bgp2.cfg", "edges", 4000),
-                      ("SpeakerMC_bgpeq.cfg", "edges", 4000), ("SpeakerMC_bgpflap.cfg", "edges", None),
-                      ("SpeakerMC_bgpfault.cfg", "edges", 4000), ("SpeakerMC_bgp_sim.cfg", "sim", None)],
+    "C05": {"quick": [("SpeakerMC_bgp.cfg", "edges", 3000), ("SpeakerMC_bgp2.cfg", "edges", 3000),
+                      ("SpeakerMC_bgpeq.cfg", "edges", 3000), ("SpeakerMC_bgpflap.cfg", "edges", None),
+                      ("SpeakerMC_bgpfault.cfg", "edges", None), ("SpeakerMC_bgp_sim.cfg", "sim", None)],
             "thorough": [("SpeakerMC_bgp.cfg", "edges", None), ("SpeakerMC_bgp2.cfg", "edges", None),
                          ("SpeakerMC_bgpeq.cfg", "edges", None), ("SpeakerMC_bgpflap.cfg", "edges", None),
-                         ("SpeakerMC_bgpfault.cfg", "edges", None), ("SpeakerMC_bgp3.cfg", "edges", 100000),
+                         ("SpeakerMC_bgpfault.cfg", "edges", None), ("SpeakerMC_bgpfault2.cfg", "edges", 100000),
+                         ("SpeakerMC_bgp3.cfg", "edges", 100000),
                          ("SpeakerMC_bgp_sim.cfg", "sim", None)]},
-    "C09": {"quick": [("SpeakerMC_conv.cfg", "edges", 5000), ("SpeakerMC_convml.cfg", "edges", 4000),
-                      ("SpeakerMC_convdual.cfg", "edges", 4000), ("SpeakerMC_convflap.cfg", "edges", None),
+    "C09": {"quick": [("SpeakerMC_conv.cfg", "edges", 4000), ("SpeakerMC_convml.cfg", "edges", 3000),
+                      ("SpeakerMC_convdual.cfg", "edges", 3000), ("SpeakerMC_convflap.cfg", "edges", None),
                       ("SpeakerMC_convign.cfg", "edges", None), ("SpeakerMC_conv_sim.cfg", "sim", None)],
             "thorough": [("SpeakerMC_conv.cfg", "edges", None), ("SpeakerMC_convml.cfg", "edges", None),
                          ("SpeakerMC_convdual.cfg", "edges", None), ("SpeakerMC_convflap.cfg", "edges", None),
@@ -276,7 +277,12 @@ def signature(name, walk_obs, k):
     """Stable description of a failure, computed from the observations only (never decides)."""
     o = walk_obs[k]
     if name.startswith("C05.") and fault_origin(walk_obs, k) != "none":
-        return "%s|fault=%s" % (name, fault_origin(walk_obs, k))
+        kind = ""
+        if name == "C05.ReportedPeers":
+            up = {p for p, v in o["peers"].items() if v["up"]}
+            ghost = any(p not in up for l in o["rep"].values() for p in l)
+            kind = "|kind=" + ("reports-peer-without-session" if ghost else "other")
+        return "%s%s|fault=%s" % (name, kind, fault_origin(walk_obs, k))
     if name == "C09.Converged":
         ml2, mbgp = announced_view(o)
         fl2, fbgp = announced_view(o["fresh"])
